@@ -1,5 +1,9 @@
 import MgpuProofs.C14Run
 import MgpuProofs.C14Once
+import MgpuProofs.C14Live
+import MgpuProofs.C14Progress
+import MgpuProofs.C14Truth
+import MgpuProofs.C14Next
 /-! # C14 — barriers, wait counts and wavefront termination order execution correctly
 
 Statements are about `C14.run c s ops`: the abstract compute-unit state after an **arbitrary**
@@ -287,6 +291,299 @@ theorem barrier_live_old_refuted : ¬ barrier_live_full Cfg.old := by
 /-- the strongest statement that held before the repair is about groups without an early exit; with
     the repair the same schedule releases wavefront 1 -/
 example : stuck 0 (run Cfg.cur two [.issue 0 1 0 0, .eval, .issue 1 10 0 0, .eval]) = false := by decide
+
+
+/-! ## run-level barrier liveness -/
+
+/-- **barrier_live (full, run level).** After every legal schedule of the repaired code no
+    work-group is stuck: a state in which all unfinished wavefronts of a group are parked at the
+    barrier is never reached — the event that parks or ends the last moving wavefront of the group
+    releases everybody in that very step (`barrier_live_arrive` / `barrier_live_exit` are the step
+    forms). Invariant `NS` of `MgpuProofs/C14Live.lean`. -/
+theorem barrier_live (c : Cfg) (hA : c.fixA = true) (hB : c.fixB = true) : barrier_live_full c := by
+  intro s ops g h0 hl
+  have ns := (run_NS hA hB ops (Init_Inv h0) (Init_NS h0) hl).1
+  cases hst : stuck g (run c s ops) with
+  | false => rfl
+  | true =>
+    exfalso
+    simp only [stuck, Bool.and_eq_true, List.any_eq_true, List.all_eq_true, beq_iff_eq, Bool.or_eq_true,
+      bne_iff_ne] at hst
+    obtain ⟨⟨v, hv, hvg, hvb⟩, hall⟩ := hst
+    obtain ⟨u, hu, hug, hu1, hu2⟩ := ns v hv hvb
+    rcases hall u hu with (hh | hh) | hh
+    · exact hh (hug.trans hvg)
+    · exact hu1 hh
+    · exact hu2 hh
+
+/-- **Once all unfinished wavefronts have reached the barrier they all proceed** (every legal run):
+    a wavefront is found parked only while some wavefront `u` of its group is still Ready or Running
+    in the same barrier phase (`u.bar = v.bar`) and has not been parked at that barrier yet. -/
+theorem barrier_live_waits_only_for_movers (c : Cfg) (hA : c.fixA = true) (hB : c.fixB = true) (s : State)
+    (ops : List Op) (h0 : Init s) (hl : legalRun c s ops = true) :
+    ∀ v ∈ (run c s ops).wfs, v.state = .atBarrier →
+      ∃ u ∈ (run c s ops).wfs, u.wg = v.wg ∧ (u.state = .ready ∨ u.state = .running) ∧
+        u.bar = v.bar ∧ u.arr ≤ v.arr := by
+  intro v hv hvb
+  have inv := sched_inv c hA hB s ops h0 hl
+  obtain ⟨ns, rng⟩ := run_NS hA hB ops (Init_Inv h0) (Init_NS h0) hl
+  obtain ⟨u, hu, hug, hu1, hu2⟩ := ns v hv hvb
+  have hact : u.state = .ready ∨ u.state = .running := by
+    rcases rng u hu with h | h | h | h
+    · exact Or.inl h
+    · exact Or.inr h
+    · exact absurd h hu1
+    · exact absurd h hu2
+  have hvnc : v.state ≠ .completed := by rw [hvb]; decide
+  have b1 := inv.bars u hu v hv hug hvnc
+  have b2 := inv.bars v hv u hu hug.symm hu2
+  have hWv := (inv.ghost v hv).2.2 hvb
+  have hWu := inv.ghost u hu
+  refine ⟨u, hu, hug, hact, by omega, ?_⟩
+  rcases hact with h | h
+  · have := hWu.2.1 h; omega
+  · by_cases ho : u.op = 10
+    · have := (hWu.1 h).1 ho; omega
+    · have := (hWu.1 h).2 ho; omega
+
+example : ∃ v ∈ (run Cfg.cur demo (demoOps.take 9)).wfs, v.state = .atBarrier := by decide
+
+/-- **barrier_live (temporal form).** In any state reached by a legal schedule: if every unfinished
+    wavefront of group `g` has reached the barrier — it is parked, or its `s_barrier` has been issued
+    and is in `internalExecuting` — then after the next evaluation round of `EvaluateInternalInst`
+    every wavefront of the group is Completed or Ready, released from every barrier it arrived at
+    (`bar = arr`): they all proceed, whatever else is in `internalExecuting` (other groups, a full
+    barrier buffer, a full port). -/
+theorem barrier_live_next_round (c : Cfg) (hA : c.fixA = true) (hB : c.fixB = true) (s : State) (ops : List Op)
+    (h0 : Init s) (hl : legalRun c s ops = true) (g : Nat)
+    (hreach : ∀ v ∈ (run c s ops).wfs, v.wg = g → v.state = .completed ∨ v.state = .atBarrier ∨
+      (v.state = .running ∧ v.op = 10 ∧ v.id ∈ (run c s ops).exec)) :
+    ∀ v' ∈ (run c s (ops ++ [.eval])).wfs, v'.wg = g →
+      v'.state = .completed ∨ (v'.state = .ready ∧ v'.bar = v'.arr) := by
+  have hrun : run c s (ops ++ [.eval]) = (evalInternal c (run c s ops)).1 := by
+    unfold run; rw [List.foldl_append]; rfl
+  rw [hrun]
+  exact evalInternal_releases hA hB (sched_inv c hA hB s ops h0 hl)
+    (run_NS hA hB ops (Init_Inv h0) (Init_NS h0) hl) hreach
+
+/-- non-vacuity: in the demo, after 12 events wavefront 0 is parked, wavefront 2 has ended and
+    wavefront 1 has just issued its `s_barrier`; the next round releases 0 and 1 -/
+example : (run Cfg.cur demo (demoOps.take 12)).wfs.map (fun w => (w.state, w.op)) =
+      [(.atBarrier, 10), (.running, 10), (.completed, 1), (.ready, 99), (.ready, 99)] ∧
+    (run Cfg.cur demo (demoOps.take 12)).exec = [1] ∧
+    (run Cfg.cur demo (demoOps.take 12 ++ [.eval])).wfs.map (fun w => (w.state, w.bar, w.arr)) =
+      [(.ready, 1, 1), (.ready, 1, 1), (.completed, 0, 0), (.ready, 0, 0), (.ready, 0, 0)] := by decide
+
+
+/-! ## the completion message: exactly once -/
+
+theorem count_eq_one_of_nodup {l : List Nat} {a : Nat} (hn : l.Nodup) (h : a ∈ l) : l.count a = 1 := by
+  induction l with
+  | nil => cases h
+  | cons b l ih =>
+    rw [List.nodup_cons] at hn
+    by_cases hb : b = a
+    · subst hb
+      rw [List.count_cons_self, List.count_eq_zero.mpr hn.1]
+    · rw [List.count_cons_of_ne hb]
+      rcases List.mem_cons.mp h with e | e
+      · exact absurd e.symm hb
+      · exact ih hn.2 e
+
+/-- **wg_completion_exactly_once (safety half: the owed-message flag).** After every legal schedule,
+    under arbitrary back-pressure: the log has no repetition and, for the group of every wavefront,
+    the message is in the log **iff** all wavefronts of the group have ended — never earlier
+    (`wg_completion_once`), and the last wavefront never becomes Completed without its message
+    (`DInv`, `MgpuProofs/C14Progress.lean`). Hence the number of messages of a group is 1 once it has
+    ended and 0 before. -/
+theorem wg_completion_exactly_once (c : Cfg) (hA : c.fixA = true) (hB : c.fixB = true) (s : State)
+    (ops : List Op) (h0 : Init s) (hs : s.sent = []) (hl : legalRun c s ops = true) :
+    ∀ v ∈ (run c s ops).wfs,
+      (v.wg ∈ (run c s ops).sent ↔ ∀ u ∈ (run c s ops).wfs, u.wg = v.wg → u.state = .completed) ∧
+      (run c s ops).sent.count v.wg =
+        if (run c s ops).wfs.all (fun u => u.wg != v.wg || u.state == .completed) then 1 else 0 := by
+  intro v hv
+  obtain ⟨hnd, honly⟩ := wg_completion_once c hA hB s ops h0 hs hl
+  have hd := run_DInv hA hB ops (Init_Inv h0) (Init_DInv h0) hl
+  have hiff : v.wg ∈ (run c s ops).sent ↔ ∀ u ∈ (run c s ops).wfs, u.wg = v.wg → u.state = .completed :=
+    ⟨fun h => honly v.wg h, fun h => hd v hv h⟩
+  refine ⟨hiff, ?_⟩
+  split
+  · rename_i hall
+    apply count_eq_one_of_nodup hnd
+    apply hiff.mpr
+    intro u hu hug
+    have := List.all_eq_true.mp hall u hu
+    simp only [Bool.or_eq_true, bne_iff_ne, beq_iff_eq] at this
+    rcases this with hh | hh
+    · exact absurd hug hh
+    · exact hh
+  · rename_i hall
+    apply List.count_eq_zero.mpr
+    intro hin
+    apply hall
+    rw [List.all_eq_true]
+    intro u hu
+    by_cases hug : u.wg = v.wg
+    · simp [hiff.mp hin u hu hug]
+    · simp [hug]
+
+example : (run Cfg.cur demo demoOps).sent.count 0 = 1 ∧ (run Cfg.cur demo (demoOps.take 20)).sent.count 0 = 0 := by
+  decide
+
+/-- **wg_completion_exactly_once (liveness half: at least once if the port is freed).** In any
+    reachable state in which the last wavefront `i` of group `g` sits at `s_endpgm` with nothing
+    outstanding (`Pending`: the message is owed, only the port can keep it back), every legal
+    continuation in which the environment issues no new memory access for `i` and in which more
+    evaluation rounds start with room in the ToACE port than there are `internalExecuting` entries
+    ahead of `i` ends with the message in the log. Decreasing measure: `ahead i exec` — no event
+    increases it, an evaluation round with room decreases it or sends the message
+    (`step_progress`). -/
+theorem wg_completion_eventually (c : Cfg) (hA : c.fixA = true) (hB : c.fixB = true) (s : State)
+    (ops : List Op) (h0 : Init s) (hl : legalRun c s ops = true) (i g : Nat)
+    (hp : Pending (run c s ops) i g) (ops' : List Op) (hl' : legalRun c (run c s ops) ops' = true)
+    (hm : ops'.all (notMemIssue i) = true)
+    (hn : ahead i (run c s ops).exec < roomEvals c (run c s ops) ops') :
+    g ∈ (run c (run c s ops) ops').sent :=
+  run_progress hA hB ops' (sched_inv c hA hB s ops h0 hl) hp hl' hm hn
+
+/-- wavefront 1 of the demo after 20 events -/
+def demoW1 : Wf :=
+  { id := 1, wg := 0, state := .running, op := 1, lk := 0, vm := 0, osc := 0, ovc := 0, pc := 3,
+    inPool := true, arr := 1, bar := 1 }
+
+/-- non-vacuity: after 20 events of the demo the port is full and wavefront 1 owes the message of
+    group 0; one drain and one evaluation round later it is in the log -/
+example : Pending (run Cfg.cur demo (demoOps.take 20)) 1 0 ∧
+    ahead 1 (run Cfg.cur demo (demoOps.take 20)).exec <
+      roomEvals Cfg.cur (run Cfg.cur demo (demoOps.take 20)) [.drain 3, .eval] ∧
+    legalRun Cfg.cur (run Cfg.cur demo (demoOps.take 20)) [.drain 3, .eval] = true ∧
+    (run Cfg.cur (run Cfg.cur demo (demoOps.take 20)) [.drain 3, .eval]).sent = [0] := by
+  refine ⟨⟨demoW1, ⟨by decide, rfl, rfl, by decide, by decide, by decide⟩, rfl, rfl, by decide⟩,
+    by decide, by decide, by decide⟩
+
+/-- **... in particular under a dispatcher that takes one message per cycle.** If the port holds at
+    most its capacity (≥ 1) and wavefront `i` owes the message of group `g` with `k` entries ahead of it
+    in `internalExecuting`, then after `k + 1` cycles "the dispatcher takes one message, the scheduler
+    evaluates" the message is in the log — no hypothesis on the schedule is left. -/
+theorem wg_completion_fair_dispatcher (c : Cfg) (hA : c.fixA = true) (hB : c.fixB = true) (hcap : 0 < c.aceCap)
+    (s : State) (ops : List Op) (h0 : Init s) (hout : s.out.length ≤ c.aceCap)
+    (hl : legalRun c s ops = true) (i g : Nat) (hp : Pending (run c s ops) i g) :
+    g ∈ (run c (run c s ops) (fairCycles (ahead i (run c s ops).exec + 1))).sent := by
+  obtain ⟨a, b, d⟩ := fairCycles_facts c hcap i (ahead i (run c s ops).exec + 1) (run c s ops)
+    (run_out_le c ops s hout)
+  exact wg_completion_eventually c hA hB s ops h0 hl i g hp _ a b (by omega)
+
+example : (run Cfg.cur (run Cfg.cur demo (demoOps.take 20))
+    (fairCycles (ahead 1 (run Cfg.cur demo (demoOps.take 20)).exec + 1))).sent = [0] := by decide
+
+/-- while the port stays full the message is not sent, however many rounds are evaluated: the
+    hypothesis on the environment is needed -/
+example : (run Cfg.cur (run Cfg.cur demo (demoOps.take 20)) [.eval, .eval, .eval]).sent = [] := by decide
+
+/-! ## the wait counters against the really outstanding accesses -/
+
+/-- **Counters = outstanding last-transaction responses** (any response order). Along every
+    consistently annotated run from a fresh state, whatever the order in which responses return,
+    `OutstandingVectorMemAccess` is the number of outstanding FLAT instructions whose
+    last-transaction response has not arrived, and `OutstandingScalarMemAccess` that number plus the
+    same for scalar loads. (Issue side = `issueFlat`: +1 on both per FLAT instruction.) -/
+theorem counters_count_last_responses (c : Cfg) (gs : GState) (ops : List GOp) (hf : GFresh gs)
+    (hok : respOKRun c gs ops = true) :
+    ∀ w ∈ (grun c gs ops).s.wfs,
+      w.ovc = (countLast ((grun c gs ops).g w.id).qv : Int) ∧
+      w.osc = (countLast ((grun c gs ops).g w.id).qv : Int) + (countLast ((grun c gs ops).g w.id).qs : Int) :=
+  grun_Tracked c ops gs (GFresh_inv hf).1 hok
+
+/-- **waitcnt_tracks_truth.** Under in-order returns on each memory path (what the reorder buffer
+    of property C15 guarantees: the response that arrives belongs to the oldest outstanding
+    instruction, an instruction's last transaction is answered last) the two counters of every
+    wavefront equal, in every reachable state, the number of memory instructions that are really
+    outstanding — the ghost queues, which are never read by a transition. -/
+def waitcnt_tracks_truth_full (c : Cfg) (ordered : Bool) : Prop :=
+  ∀ (gs : GState) (ops : List GOp), GFresh gs → respOKRun c gs ops = true →
+    (ordered = true → inOrderRun c gs ops = true) →
+    ∀ w ∈ (grun c gs ops).s.wfs,
+      w.ovc = (((grun c gs ops).g w.id).trueVM : Int) ∧ w.osc = (((grun c gs ops).g w.id).trueLGKM : Int)
+
+theorem waitcnt_tracks_truth (c : Cfg) : waitcnt_tracks_truth_full c true := by
+  intro gs ops hf hok hin w hw
+  obtain ⟨ht, ha⟩ := GFresh_inv hf
+  exact truth_of (grun_Tracked c ops gs ht hok) (grun_AllLast c ops gs ha hok (hin rfl)) hw
+
+/-- one Ready wavefront, nothing outstanding -/
+def gone : GState :=
+  { s := { wfs := [{ id := 0, wg := 0, state := .ready, op := 99, lk := 0, vm := 0, osc := 0, ovc := 0,
+                     pc := 0, inPool := true, arr := 0, bar := 0 }],
+           exec := [], buf := [], out := [], sent := [], fault := false }
+    g := fun _ => ⟨[], []⟩ }
+
+theorem gone_fresh : GFresh gone := ⟨by decide, fun _ => rfl⟩
+
+/-- Without the ordering hypothesis the statement is false: a FLAT load of two transactions whose
+    *last* transaction is answered first has `vmcnt` back at 0 while one of its responses (and so the
+    instruction) is still outstanding — `s_waitcnt vmcnt(0)` then completes too early. This is the
+    observation recorded in the module notes; it is not reachable behind a reorder buffer. -/
+theorem waitcnt_tracks_truth_unordered_refuted : ¬ waitcnt_tracks_truth_full Cfg.cur false := by
+  intro h
+  have := h gone [.memIssue 0 true 1, .memRet 0 0 0 true] gone_fresh (by decide) (by intro e; cases e)
+  revert this
+  decide
+
+example : (evalInst Cfg.cur (grun Cfg.cur gone [.memIssue 0 true 1, .memRet 0 0 0 true, .plain (.issue 0 12 0 0)]).s
+    { id := 0, wg := 0, state := .running, op := 12, lk := 0, vm := 0, osc := 0, ovc := 0,
+      pc := 0, inPool := true, arr := 0, bar := 0 }).completed = true ∧
+    ((grun Cfg.cur gone [.memIssue 0 true 1, .memRet 0 0 0 true, .plain (.issue 0 12 0 0)]).g 0).trueVM = 1 := by
+  decide
+
+/-- **waitcnt_sound about real accesses.** In every state reachable by a consistently annotated run
+    with in-order returns, and at every point of an evaluation round of `EvaluateInternalInst` started
+    there (`l₁` = the entries of `internalExecuting` evaluated before), an `s_waitcnt` that completes
+    has at most `lgkmcnt` / `vmcnt` memory instructions really outstanding. -/
+theorem waitcnt_sound_truth (c : Cfg) (gs : GState) (ops : List GOp) (hf : GFresh gs)
+    (hok : respOKRun c gs ops = true) (hin : inOrderRun c gs ops = true) (l₁ : List Nat) (j : Nat) (w : Wf)
+    (hget : getWf (l₁.foldl (evalOne c) ({ (grun c gs ops).s with exec := [] }, false)).1.wfs j = some w)
+    (hop : w.op = 12)
+    (hc : (evalInst c (l₁.foldl (evalOne c) ({ (grun c gs ops).s with exec := [] }, false)).1 w).completed = true) :
+    (((grun c gs ops).g w.id).trueLGKM : Int) ≤ w.lk ∧ (((grun c gs ops).g w.id).trueVM : Int) ≤ w.vm := by
+  obtain ⟨ht, ha⟩ := GFresh_inv hf
+  have ht' : TrackedS (grun c gs ops).g (l₁.foldl (evalOne c) ({ (grun c gs ops).s with exec := [] }, false)).1 :=
+    TrackedS_sub (s := ({ (grun c gs ops).s with exec := [] } : State)) (grun_Tracked c ops gs ht hok)
+      (foldl_SubL c l₁ _)
+  have htr := truth_of ht' (grun_AllLast c ops gs ha hok hin) (getWf_some hget).1
+  have := (waitcnt_sound c _ w hop).1 hc
+  rw [← htr.1, ← htr.2]
+  exact this
+
+/-- **endpgm_waits about real accesses**: under the same hypotheses an `s_endpgm` completes only when
+    no memory instruction of the wavefront is really outstanding. -/
+theorem endpgm_waits_truth (c : Cfg) (gs : GState) (ops : List GOp) (hf : GFresh gs)
+    (hok : respOKRun c gs ops = true) (hin : inOrderRun c gs ops = true) (l₁ : List Nat) (j : Nat) (w : Wf)
+    (hget : getWf (l₁.foldl (evalOne c) ({ (grun c gs ops).s with exec := [] }, false)).1.wfs j = some w)
+    (hop : w.op = 1)
+    (hc : (evalInst c (l₁.foldl (evalOne c) ({ (grun c gs ops).s with exec := [] }, false)).1 w).completed = true) :
+    ((grun c gs ops).g w.id).trueLGKM = 0 ∧ ((grun c gs ops).g w.id).trueVM = 0 := by
+  obtain ⟨ht, ha⟩ := GFresh_inv hf
+  have ht' : TrackedS (grun c gs ops).g (l₁.foldl (evalOne c) ({ (grun c gs ops).s with exec := [] }, false)).1 :=
+    TrackedS_sub (s := ({ (grun c gs ops).s with exec := [] } : State)) (grun_Tracked c ops gs ht hok)
+      (foldl_SubL c l₁ _)
+  have htr := truth_of ht' (grun_AllLast c ops gs ha hok hin) (getWf_some hget).1
+  have := (endpgm_waits c _ w hop).1 hc
+  omega
+
+/-- the demo with one FLAT load of two transactions of wavefront 1, answered in order, and an
+    `s_waitcnt 0`: it completes only after the second response -/
+def gdemoOps : List GOp :=
+  [.plain (.issueUnit 1), .memIssue 1 true 1, .plain (.unitDone 1), .plain (.issue 1 12 0 0), .plain .eval,
+   .memRet 1 0 0 false, .plain .eval, .memRet 1 0 0 true, .plain .eval]
+
+example : respOKRun Cfg.cur ⟨demo, fun _ => ⟨[], []⟩⟩ gdemoOps = true ∧
+    inOrderRun Cfg.cur ⟨demo, fun _ => ⟨[], []⟩⟩ gdemoOps = true ∧
+    legalRun Cfg.cur demo (gdemoOps.map GOp.erase) = true ∧
+    ((grun Cfg.cur ⟨demo, fun _ => ⟨[], []⟩⟩ (gdemoOps.take 7)).g 1).trueVM = 1 ∧
+    (grun Cfg.cur ⟨demo, fun _ => ⟨[], []⟩⟩ (gdemoOps.take 7)).s.exec = [1] ∧
+    (grun Cfg.cur ⟨demo, fun _ => ⟨[], []⟩⟩ gdemoOps).s.exec = [] ∧
+    ((grun Cfg.cur ⟨demo, fun _ => ⟨[], []⟩⟩ gdemoOps).g 1).trueVM = 0 := by decide
 
 /-! ## the emulator -/
 
